@@ -472,6 +472,15 @@ def run(ctx):
             ctx.need_fn(v, fname)
             rule_publish(ctx, v, fname, stops)
         rule_handover(ctx, fl)
+        from . import c12
+        with ctx.shared({'C12.4': 'C03.9'}, keep=lambda k: k.startswith('create:'), floor=5,
+                        doc='initial stack layout (shared with C12.4): the per-thread hint copied below the stack header and the initial '
+                            'stack pointer handed to myth_make_context_* do not overlap (the first frames of the thread would '
+                            'overwrite the hint, or an update of the hint a suspended thread\'s frames)'):
+            v4 = ctx.view('myth_if_native.c', roots=['myth_create_ex_body'],
+                          stops=('myth_queue_push', 'myth_queue_pop', 'get_new_myth_thread_struct_desc', 'get_new_myth_thread_struct_stack',
+                                 'myth_init_ex_body', 'myth_make_context_empty', 'myth_make_context_voidcall') + lib.SPIN_STOPS, flavour=fl)
+            c12.rule4_custom_data(ctx, v4)
     ctx.floor('C03.1', 14 * 3)
     ctx.floor('C03.2', 11 * 5)
     ctx.floor('C03.3', 11)
